@@ -55,6 +55,11 @@ class Ctx(object):
         self.findings = [f for f in load_findings() if f.get("property") == pid and f.get("kind") == "finding"]
         self.machinery = []
         self.notes = []
+        rdir = os.path.join(VERIF, "replays")
+        if os.path.isdir(rdir):
+            for fn in os.listdir(rdir):
+                if fn.startswith(pid + "_"):
+                    os.unlink(os.path.join(rdir, fn))
 
     # -- bookkeeping -----------------------------------------------------------------------------
     def add_mc(self, r, what=""):
